@@ -528,6 +528,22 @@ NOT_APPLICABLE = {
     'C07': "relational property between two parsers over an infinite grammar; one of them is pycparser, a third-party "
            "table-driven LALR parser that cannot be put under contract, so there is no verified denotation of the Python "
            "side to relate parse_c_type.c to (DESIGN.md section 5)",
+    'C08': "a round trip through two parsers: ffi.getctype() builds a declarator TEXT (ct_name splicing, get_c_name) and "
+           "ffi.typeof() parses it again with pycparser or parse_c_type.c, and the last clause asks a C compiler to accept "
+           "the text; the function-level ingredient within reach (ctypedescr_new_on_top's splice at ct_name_position) does "
+           "not decide 're-parses to the type the declarator denotes', which is a statement about the grammar of C "
+           "declarators accepted by a third-party LALR parser (same obstacle as C07); no contract on it was attempted "
+           "in this round",
+    'C13': "a relational property across four call routes, three of which run through code that is not cffi's and not "
+           "within reach of the verifier: libffi's ffi_call (machine-level argument marshalling), and the C that the "
+           "recompiler EMITS and a compiler then compiles (the _cffi_f_ / _cffi_d_ wrappers). The ingredients that are "
+           "cffi functions are decided elsewhere (the converters of every route against one spec: C03/C04/C05/C15; "
+           "the errno bracket of every route: C22); 'same outcome through every route' itself is not a post-condition "
+           "of any one of them",
+    'C26': "a statement over every interleaving of concurrent init_once calls (mutual exclusion, at most one completion, "
+           "no call blocked forever): contracts on sequential functions decide neither schedules nor liveness, and the "
+           "verifier has no model of threads; the sequential reading (second call returns the cached result, an "
+           "exception caches nothing) is a small part of the statement and is not claimed on its own",
     'C28': "interleavings and faults inside CPython start-up (CAS spin lock, lazily created mutex, function-pointer "
            "switch) with a liveness clause; the code is a header pasted into generated modules; contracts on sequential "
            "functions do not decide schedule/fault properties (DESIGN.md section 5)",
